@@ -178,6 +178,19 @@ CHECKS = {
         design_ref="DESIGN.md section 3 C31, section 8",
         technique="who-may-call scan; iterator data-flow classification; forward must-analysis; comparator closure shape",
     ),
+    "C32": dict(
+        category="other",
+        text="Decides the structural reasons a test's verdict and output could depend on scheduling: (1) seed purity - derive_seed and "
+             "instance_seed, with everything they can call, reach no time/thread/pid/randomness/atomic source and no thread-local but "
+             "the string interner; their inputs are Ir.seed, the test name and the handle/instance name; (2) per-test reset - every "
+             "thread-local of the simulator that code reachable from testbench::exec touches (found from the call graph and the "
+             "LocalKey accesses) is reset by run_testbench before exec on every path, or is in a reasoned exemption table; the write log "
+             "is installed/cleared inside every step; (3) the worker loop enables capture before a test's build, takes the captured "
+             "output after the run and before the print lock; (4) prior timings flow only into the queue's sort comparator. "
+             "It does not decide equality of verdicts over schedules, nor that range draws stay within bounds for every width.",
+        design_ref="DESIGN.md section 3 C32, section 8.4l",
+        technique="call-graph reachability with a nondeterminism-source table; thread-local access enumeration (HIR/MIR LocalKey resolution); must-facts ordering; value-flow of the timing table",
+    ),
     "C35": dict(
         category="other",
         text="Decides the edge protocol of user components and the payload/mask pairing of the host-side copies: in both "
